@@ -339,17 +339,32 @@ def eager_snapshot(ld, r, count):
         def fn(i):
             calls[i] += 1
             return [i, calls[i]]
-        src = ld.new(list(range(n)))
-        if r.random() < 0.5 and n:
+        shape = r.choice(['list', 'dict', 'dup_concat', 'dup_intersperse', 'dup_index', 'filter'])
+        if shape == 'list':
+            src = ld.new(list(range(n)))
+        else:
+            src = ld.new({f'k{i}': i for i in range(n)})
+        if shape == 'dup_concat':          # the same keys twice: the eager cache falls back to a key-less list of the values
+            src = src.concatenate(src)
+        elif shape == 'dup_intersperse' and n:
+            src = src.intersperse(src)
+        elif shape == 'dup_index' and n:
+            src = src[[0, n - 1, 0]]
+        elif shape == 'filter':
+            src = src.filter(lambda x: x % 2 == 0)
+        elif r.random() < 0.5 and n:
             src = src[r.sample(range(n), r.randint(1, n))]
         up = src.map(fn)
-        expect = None
-        snap = up.cache(lazy=False)
-        first = [list(x) for x in snap]
+        expect = [int(x) for x in src]      # content and order at call time
+        snap = up.cache(lazy=False) if r.random() < 0.7 else ld.new(up)
+        first = [list(x) if isinstance(x, list) else x for x in snap]
+        if [x[0] if isinstance(x, list) else x for x in first] != expect:
+            fails.append(f'cache(lazy=False) of a {shape} dataset: snapshot holds {first}, the pipeline produced the examples {expect} at call time')
+            continue
         ncalls = dict(calls)
         again = [list(x) for x in snap]
         byidx = [list(snap[i]) for i in range(len(snap))]
-        if first != again or first != byidx or dict(calls) != ncalls or any(v[1] != 1 for v in first):
+        if first != again or first != byidx or dict(calls) != ncalls or dict(calls) != dict(collections.Counter(expect)):        # once per position, never again
             fails.append(f'cache(lazy=False) is not a frozen snapshot: first={first} again={again} byidx={byidx} calls={dict(calls)}')
     return fails[:3]
 
